@@ -785,6 +785,10 @@ func checkC07(c *core.Ctx) error {
 		return err
 	}
 	c.Set("flagged_histories", flagRuns)
+	// (C) chains of nested derive calls: pass count depends on the old file, the output must not (RegenChain.tla)
+	if _, err := c07Chains(c, bin); err != nil {
+		return err
+	}
 	// DRIFT: prediction of the implementation-shaped model
 	drift := 0
 	for _, r := range results {
